@@ -282,6 +282,9 @@ func (u *Unit) valKey(st *State, v Val, depth int) string {
 		}
 		return fmt.Sprintf("sl(%s,%s,%s,%s|%s)", x.Blk.S, x.Off.S, x.Len.S, x.Cap.S, c)
 	case StrV:
+		if x.IsLit {
+			return fmt.Sprintf("lit(%q)", x.Lit)
+		}
 		return fmt.Sprintf("str(%s,%s)", x.Arr.S, x.Len.S)
 	case ArrV:
 		return "arr(" + x.Arr.S + ")"
